@@ -551,6 +551,14 @@ func init() {
 		}
 		return ret(cnt)
 	}
+	// the JSON text a macro expansion stores: the quoted CAS / CRC32c string
+	stubs[p+"verifMacroCasJSON"] = func(e *Exec, th *Thread, c *CallCtx, a []Val) StubRes {
+		return ret(bytesOf(e.injUF("jquote", SBlob, toBlob(e.injUF("casStr", SStr, a[0].(*Term))))))
+	}
+	stubs[p+"verifMacroCrcJSON"] = func(e *Exec, th *Thread, c *CallCtx, a []Val) StubRes {
+		b := a[0].(*BytesV)
+		return ret(bytesOf(e.injUF("jquote", SBlob, toBlob(e.injUF("crc32c", SStr, toBlob(b.S))))))
+	}
 	stubs[p+"verifSymbolic"] = func(e *Exec, th *Thread, c *CallCtx, a []Val) StubRes {
 		return ret(tTrue)
 	}
